@@ -26,6 +26,7 @@ theorem ulist_first_occurrence (xs ys : List α) :
 
 theorem ulist_mk_of_nodup (xs : List α) (h : xs.Nodup) : mk xs = xs := mk_of_nodup xs h
 
+omit [DecidableEq α] in
 private theorem getD_nodup (heap : List (List α)) (inv : ∀ u ∈ heap, u.Nodup) (h : Nat) :
     (heap.getD h []).Nodup := by
   rw [List.getD_eq_getElem?_getD]
